@@ -333,14 +333,26 @@ class Run:
         self.module_ok = False
         try:
             build_harness()
-            run_translator()
         except Broken as b:
             self.broken.append((b.what, b.detail))
             return False
+        stale = False
+        try:
+            run_translator()
+        except Broken as b:
+            # the regenerated model no longer follows the source: a broken tie.  The SEARCH for a failing input still runs, against
+            # the last model that did build (the oracles on the implementation do not need the model at all)
+            self.broken.append((b.what, b.detail))
+            stale = True
         ok, log = lake_build(list(lake_targets))
         if not ok:
             self.broken.append(("lake-build:" + ",".join(lake_targets), "\n".join(log.split("\n")[-60:])))
-            return False
+            stale = True
+        if stale:
+            if not os.path.exists(MODEL_BIN):
+                return False
+            self.count("search-against-last-good-model")
+            return True
         if self.module:
             ok2, log2 = lake_build([self.module])
             if not ok2:
